@@ -235,7 +235,7 @@ def cmd_check(prop, tier, seed, only=None, jobs=None, verbose=False):
             continue
         cubes = h['cubes'](tier, seed)
         budget = h.get('budget_s', {}).get(tier, 300 if tier == 'quick'
-                                           else 3000)
+                                           else 1500)
         for params in cubes:
             items.append((hname, params, budget))
         per_h[hname] = {'cubes': len(cubes), 'paths': 0, 'decisions': 0,
